@@ -151,6 +151,8 @@ func runLcScenario(ctl *lcCtl, sc lcScenario, r interface{ IntN(int) int }, choi
 		wait := 5 * time.Second
 		if blocking {
 			wait = 600 * time.Microsecond
+		} else if th < k {
+			wait = 60 * time.Millisecond
 		}
 		deadline := time.After(wait)
 		var early []lcArrival
@@ -173,9 +175,12 @@ func runLcScenario(ctl *lcCtl, sc lcScenario, r interface{ IntN(int) int }, choi
 				break loop
 			}
 		}
-		if !arrived && !blocking {
+		if !arrived && !blocking && th == k {
 			return fmt.Errorf("thread %d released from %s did not arrive", th, from)
 		}
+		// a Stop thread that does not reach its next yield point although the code between the two does not
+		// block in the model is recorded as blocked there (the acceptor's final comparison will say so);
+		// its late arrival, if any, is still recorded when it happens
 		for _, a := range early {
 			note(a)
 		}
